@@ -12,11 +12,13 @@ if ! git -C "$wt" apply "$patch" 2>/dev/null && ! git -C "$wt" apply -3 "$patch"
   echo "$name: patch does not apply"; git -C /repo worktree remove --force "$wt"; exit 2
 fi
 mkdir -p "$out"
+evlog="$(pwd)/seeded/eval_log.txt"
+rev=$(git rev-parse --short HEAD)
 for id in "$@"; do
   t0=$(date +%s)
   VERIF_REPO="$wt" VERIF_OUT="$out" bin/check "$id" --tier "${MUT_TIER:-quick}" --seed "${MUT_SEED:-1}" > "$out/$id.log" 2>&1
   rc=$?
   t1=$(date +%s)
-  echo "MUTANT $name check=$id rc=$rc wall=$((t1-t0))s viol=$(grep -c '^VIOLATION' "$out/$id.log") known=$(grep -c '^KNOWN-FINDING' "$out/$id.log") mm=$(grep -c 'MODEL-MISMATCH' "$out/$id.log")" | tee -a /dev/shm/mut/summary.txt
+  echo "MUTANT $name check=$id verif=$rev rc=$rc wall=$((t1-t0))s viol=$(grep -c '^VIOLATION' "$out/$id.log") known=$(grep -c '^KNOWN-FINDING' "$out/$id.log") mm=$(grep -c 'MODEL-MISMATCH' "$out/$id.log")" | tee -a /dev/shm/mut/summary.txt >> "$evlog"; tail -1 "$evlog"
 done
 git -C /repo worktree remove --force "$wt"
